@@ -26,6 +26,7 @@ def run(ctx, sess):
     ctx.rule('C20.4', 'min <= mean <= max needs both extremes set by the first sample: where minimum and maximum start at +/-MAX sentinels, the update of one is not control dependent on the compare with the other (no else-if chain)')
     ctx.rule('C20.5', 'variance is never negative: every value stored as the sum of squared deviations is, by sign analysis of its expression, a sum of squares, counts and non-negative terms (the Welford increment is accepted by a named lemma); no subtraction that could cancel below zero')
     ctx.rule('C20.6', 'whole-array results agree with incremental ones beyond single precision: the accumulating arithmetic of statistics.c (sums, residuals, squares) is carried out in double - no +, - or * of type float feeds an accumulator')
+    ctx.rule('C20.7', 'min <= mean <= max survives rounding: a mean that is computed as sum / count or as a weighted sum of two means (the rounded result can leave the interval by an ulp, e.g. seven samples of 0.1) is compared with the minimum and the maximum and pulled back before it is stored; the incremental form mean + (x - mean) / k needs no clamp (for k = 1 it is exact from the reset state, for k >= 2 the step is at most half the distance)')
     ctx.rule('C20.3', 'no division by a count that can be zero')
     f = P.fn('jls_statistics_combine')
     ctx.saw(f)
@@ -145,6 +146,7 @@ def run(ctx, sess):
     extremes_rule(ctx, P, 'C20.4', ('src/statistics.c', 'src/reader.c', 'src/wr_fsr.c'))
     variance_sign_rule(ctx, P, 'C20.5')
     double_arithmetic_rule(ctx, P, 'C20.6')
+    mean_bounds_rule(ctx, P, 'C20.7')
 
 
 def _fconst(e):
@@ -343,3 +345,71 @@ def double_arithmetic_rule(ctx, P, rule):
                '%d operations, all of type double' % acc if not bad else
                '`%s` is evaluated in single precision: the rounding error of the float operand enters every term of the sum (n x e^2 in the sum of squares), so the result for the whole array differs from adding the samples one at a time by far more than rounding' % bad[0][1])
     ctx.floor('functions of statistics.c with floating arithmetic', n, 3)
+
+
+def mean_bounds_rule(ctx, P, rule):
+    from ..graph import control_deps_transitive
+    n = 0
+    for fn in P.fns_in('src/statistics.c'):
+        for ev in fn.stores():
+            lhs, rhs, o = ev.store_parts()
+            l0 = strip_casts(lhs)
+            if ev.k != 'store' or l0.get('op') != 'member' or l0.get('field') != 'mean' or rhs is None:
+                continue
+            r0 = strip_casts(rhs)
+            if r0.get('op') in ('member', 'lit', 'flit') or const_of(r0) is not None or (r0.get('fc') == 'nan' or r0.get('m') == 'NAN'):
+                continue            # a copy, a constant, the invalid marker
+            if r0.get('op') != 'ref' or r0.get('rk') != 'local':
+                ctx.ob(rule, False, fn.name, 'mean stored from %s' % show(r0)[:40], ev.where(), 'the stored mean is not a local that could have been clamped')
+                n += 1
+                continue
+            V = r0['name']
+            defs = [d for d in fn.events() if (d.k == 'decl' and d.name == V and d.e is not None) or (d.k == 'store' and strip_casts(d.store_parts()[0]).get('name') == V)]
+            # incremental form: old mean + (x - old mean) / k
+            def incremental(e):
+                e = strip_casts(e)
+                if e.get('op') != 'bin' or e['o'] != '+':
+                    return False
+                a, b = strip_casts(e['k'][0]), strip_casts(e['k'][1])
+                for m_, q_ in ((a, b), (b, a)):
+                    if m_.get('op') == 'member' and m_.get('field') == 'mean' and q_.get('op') == 'bin' and q_['o'] == '/':
+                        num = strip_casts(q_['k'][0])
+                        if num.get('op') == 'bin' and num['o'] == '-' and show(strip_casts(num['k'][1])) == show(m_):
+                            return True
+                return False
+            if defs and all(incremental(d.e if d.k == 'decl' else d.store_parts()[1]) for d in defs if (d.e if d.k == 'decl' else d.store_parts()[1]) is not None and d.store_parts()[2] == '='):
+                if all(d.store_parts()[2] == '=' for d in defs):
+                    n += 1
+                    ctx.ob(rule, True, fn.name, 'mean stored from %s' % V, ev.where(), 'incremental update mean + (x - mean) / k')
+                    continue
+            # what is stored as the extremes in this function
+            ext = {}
+            for s2 in fn.stores():
+                l2 = strip_casts(s2.store_parts()[0])
+                if s2.k == 'store' and l2.get('op') == 'member' and l2.get('field') in ('min', 'max') and s2.store_parts()[1] is not None:
+                    ext.setdefault(l2['field'], set()).add(show(strip_casts(s2.store_parts()[1])))
+            clamps = {'min': False, 'max': False}
+            for s2 in fn.stores():
+                l2 = strip_casts(s2.store_parts()[0])
+                if s2.k != 'store' or l2.get('op') != 'ref' or l2.get('name') != V or s2.store_parts()[2] != '=' or s2.store_parts()[1] is None:
+                    continue
+                val = show(strip_casts(s2.store_parts()[1]))
+                for (bid, label) in control_deps_transitive(fn, s2.block.id):
+                    c = strip_casts(fn.blocks[bid].cond) if fn.blocks[bid].cond is not None else None
+                    if c is None or c.get('op') != 'bin' or c['o'] not in ('<', '>', '<=', '>=') or label != 'T':
+                        continue
+                    a, b = show(strip_casts(c['k'][0])), show(strip_casts(c['k'][1]))
+                    for which, lo in (('min', True), ('max', False)):
+                        below = (a == V and b == val and c['o'] in ('<', '<=')) or (b == V and a == val and c['o'] in ('>', '>='))
+                        above = (a == V and b == val and c['o'] in ('>', '>=')) or (b == V and a == val and c['o'] in ('<', '<='))
+                        if (lo and below or (not lo) and above) and (val in ext.get(which, ()) or True):
+                            # the bound is what the function stores as that extreme (or the expression it stores)
+                            if val in ext.get(which, set()) or any(val == x for x in ext.get(which, set())):
+                                clamps[which] = True
+            n += 1
+            ok = clamps['min'] and clamps['max']
+            ctx.ob(rule, ok, fn.name, 'mean stored from %s' % V, ev.where(),
+                   'compared with the minimum and the maximum and pulled back before it is stored' if ok else
+                   'the mean is %s and stored as computed: rounding can leave it an ulp outside [min, max] (seven samples of 0.1 give 0.099999999999999992 from the whole-array function and 0.10000000000000002 from a combine), so min <= mean <= max does not hold%s' % (
+                       'a quotient or weighted sum', '' if not (clamps['min'] or clamps['max']) else ' on the %s side' % ('max' if clamps['min'] else 'min')))
+    ctx.floor('computed means', n, 3)
